@@ -45,7 +45,8 @@ func newFF8(dataShards, parityShards int, opt options) (*leopardFF8, error) {
 		return nil, ErrInvShardNum
 	}
 
-	if dataShards+parityShards > 65536 {
+	if dataShards > order8 || parityShards > order8 || dataShards+ceilPow2(parityShards) > order8 {
+		// Parity is rounded up to a power of two, and must fit in the field with the data.
 		return nil, ErrMaxShardNum
 	}
 
